@@ -5,6 +5,8 @@ package main
 
 import (
 	"fmt"
+	"os"
+	"time"
 	"go/token"
 	"regexp"
 	"sort"
@@ -33,10 +35,11 @@ type Ctx struct {
 	Obs   []*Ob
 	Funcs map[string]bool
 	seen  map[string]bool
+	last  time.Time
 }
 
 func NewCtx(p *Prog, prop, tier string) *Ctx {
-	return &Ctx{P: p, Prop: prop, Tier: tier, Funcs: map[string]bool{}, seen: map[string]bool{}}
+	return &Ctx{P: p, Prop: prop, Tier: tier, Funcs: map[string]bool{}, seen: map[string]bool{}, last: time.Now()}
 }
 
 func (c *Ctx) add(o *Ob) *Ob {
@@ -53,6 +56,13 @@ func (c *Ctx) add(o *Ob) *Ob {
 	}
 	c.seen[o.Key] = true
 	c.Obs = append(c.Obs, o)
+	if os.Getenv("LFS_TIMING") != "" {
+		now := time.Now()
+		if !c.last.IsZero() && now.Sub(c.last) > 300*time.Millisecond {
+			fmt.Fprintf(os.Stderr, "TIMING %-60s %v\n", o.Key, now.Sub(c.last))
+		}
+		c.last = now
+	}
 	return o
 }
 
